@@ -13,7 +13,10 @@ A_KINDS = ["cut", "cut_open_fragment", "cut_compressed", "client_closing", "serv
            "connect_fail", "abandon_break", "abandon_raise", "protocol_error", "timers", "oversize_reply",
            # abandoned with the generator object still referenced; it is only finalised after the NEXT connect() call
            # (``events = ws.connect()`` re-using the variable) or while the next connection is running
-           "abandon_hold"]
+           "abandon_hold",
+           # the previous connection's inflater was left in a bad place: a compressed message that is garbage (zlib's error
+           # state is sticky), and a complete message whose deflate stream stops in the middle of a block
+           "bad_deflate", "truncated_deflate"]
 NON_DEFAULT = {"sb": 9, "cb": 10, "snct": True, "cnct": True}       # a previous connection negotiated these ...
 NON_DEFAULT_2 = {"sb": 12, "cb": 15, "snct": False, "cnct": False}    # ... and the next one these
 RELEASE_POINTS = ["after_connect", "after_connect", 0, 1, 2, 3, 4, 6]
@@ -96,6 +99,21 @@ def attempt_A(a, deflate):
                                                                "open_text": True}, bool(deflate))
         return {"script": [["wait_request"], ["stream", [["reply", reply], ["bytes", data]], "whole", 0.0], ["eof", 0.0]],
                 "reactions": sends}
+    if kind in ("bad_deflate", "truncated_deflate"):
+        if not deflate:
+            data = B(wire.TEXT, b"fr", fin=0) + B(wire.TEXT, b"text inside a text message")
+        else:
+            peer = deflateref.peer_of(deflate)
+            good = B(wire.TEXT, peer.compress(b"shared history between connections " * 8), rsv1=1)
+            body = peer.compress(bytes(range(256)) * 3 + b"shared history between connections " * 8)
+            if kind == "bad_deflate":
+                bad = B(wire.BINARY, b"\xff\xff\xff" + body[3:], rsv1=1)
+            else:
+                cut = max(2, int(len(body) * (0.2 + 0.6 * frac)))
+                bad = B(wire.BINARY, body[:cut], rsv1=1)
+            data = good + bad
+        return {"script": [["wait_request"], ["stream", [["reply", reply], ["bytes", data]], "whole", 0.0],
+                           [a.get("end", "eof"), 0.0]], "reactions": sends}
     if kind == "timers":
         return {"script": [["wait_request"], ["stream", [["reply", reply]], "whole", 0.0],
                            ["stream", [["bytes", B(wire.PONG, b"")]], "whole", 3.0], ["eof", 400.0]],
@@ -242,8 +260,8 @@ class C17(Prop):
                 for frac in (0, 130, 500, 999):
                     for deflate in (False, True, NON_DEFAULT):
                         for bi, b0 in enumerate(bs):
-                          for bdef in (False, True, NON_DEFAULT_2):
-                            b = dict(b0, deflate=bdef)
+                          for bdef in (False, True, NON_DEFAULT_2, "same"):
+                            b = dict(b0, deflate=deflate if bdef == "same" else bdef)
                             yield {"A": [{"kind": kind, "frac": frac, "msgs": [{"kind": "text", "payload": ["str", "prev"],
                                                                                  "frag": [2]}], "end": "eof"}],
                                    "B": b, "deflate": deflate}
